@@ -27,6 +27,10 @@ type Link struct {
 	LatePermille     int           // extra-late delivery (beyond resend intervals)
 	LateExtra        time.Duration // how late at most
 	WriteErrPermille int
+	// SlowWritePermille: a write stalls inside the system call for up to SlowWriteMax of
+	// simulated time before the data leaves (a full socket buffer, a loaded machine).
+	SlowWritePermille int
+	SlowWriteMax      time.Duration
 }
 
 // Config of the fabric.
@@ -455,6 +459,11 @@ func (c *UDPConn) send(b []byte, dst *net.UDPAddr) (int, error) {
 	src := c.srcAddr()
 	data := append([]byte(nil), b...)
 	l := f.link(src.IP.String(), dst.IP.String())
+	if l.SlowWritePermille > 0 && l.SlowWriteMax > 0 && f.s.CurrentID() >= 0 && f.s.Dec.Chance("net.slowwrite", l.SlowWritePermille) {
+		d := time.Duration(1+f.s.Dec.Choose("net.slowwriteamt", 16)) * l.SlowWriteMax / 16
+		f.fired("slow-write")
+		f.s.SleepFor(d)
+	}
 	if l.WriteErrPermille > 0 && f.s.Dec.Chance("net.werr", l.WriteErrPermille) {
 		f.fired("write-error")
 		f.rec(Rec{Kind: "werr", Src: src.String(), Dst: dst.String(), Data: data, Sock: c.Label, Err: "no buffer space available"})
